@@ -200,6 +200,16 @@ Example C17_de_crossover_met :
        [DReal half one half; DBool half false])
   = Some ([4607182418800017408; 4609434218613702656], 5, 0%nat).
 Proof. vm_compute. reflexivity. Qed.
+(* the operands need not be distinct (recombination::de draws a and b independently): with a = b the difference
+   vector is zero and the last position is the base's value, F and the per-position booleans are still drawn.
+   target (1,1), a = b = (2,2), c = (2,1), F = 0.5, bit true: trial = (2 + 0.5*0, 1 + 0.5*0) = (2,1) *)
+Example C17_de_crossover_aliased_met :
+  let one := F64.of_Z 1 in let two := F64.of_Z 2 in let half := F64.of_bits 4602678819172646912 in
+  option_map (fun r => (map F64.to_bits (de_genome (fst r)), de_age (fst r), length (snd r)))
+    (de_crossover half half one (mk_ide [one; one] 1) (mk_ide [two; two] 5) (mk_ide [two; two] 5) (mk_ide [two; one] 3)
+       [DReal half one half; DBool half true])
+  = Some ([4611686018427387904; 4607182418800017408], 5, 0%nat).
+Proof. vm_compute. reflexivity. Qed.
 Example C17_de_create_met :
   let one := F64.of_Z 1 in let two := F64.of_Z 2 in
   option_map (fun r => (map F64.to_bits (de_genome (fst r)), de_age (fst r)))
